@@ -188,6 +188,36 @@ func solve(o *Obligation, dir string, budgetMs int, portfolioAll bool) *SolveRes
 	defer os.Remove(file)
 	res := &SolveResult{SMTBytes: len(text)}
 	ctx := context.Background()
+	if o.Expect == "unsat" && !portfolioAll && o.Class != "smoke" && os.Getenv("GOVC_NOSLICE") == "" {
+		// cheapest first: the goal's cone of influence, definitions only, then with the facts
+		// that touch it (dropping assumptions is sound for a proof)
+		for k, withFacts := range []bool{false, true} {
+			st := o.smtSliced(withFacts)
+			if st == "" {
+				break
+			}
+			sf := fmt.Sprintf("%s.s%d.smt2", file, k)
+			if err := os.WriteFile(sf, []byte(st), 0o644); err != nil {
+				break
+			}
+			ms0 := 600
+			if withFacts {
+				ms0 = 1500
+			}
+			stt, out, ms := runSolver(ctx, solvers[0], sf, ms0)
+			os.Remove(sf)
+			label := "definitions only"
+			if withFacts {
+				label = "definitions and the facts touching them"
+			}
+			res.Tried = append(res.Tried, fmt.Sprintf("%s(cone of influence, %s):%s:%dms", solvers[0].name, label, stt, ms))
+			if stt == "unsat" {
+				res.Status, res.Solver, res.Ms, res.Output = stt, solvers[0].name+" (cone of influence of the goal, "+label+")", ms, out
+				res.SMTBytes = len(st)
+				return res
+			}
+		}
+	}
 	goalQuantified := strings.Contains(o.Goal, "(forall ") || strings.Contains(o.Goal, "(exists ")
 	if o.Expect == "unsat" && !portfolioAll && !goalQuantified && (strings.Contains(text, "(forall ") || strings.Contains(text, "(exists ")) {
 		qf := o.smtQF()
